@@ -16,8 +16,14 @@ RULE = ('direction 1: registries regenerated from a per-case seed (instrumentati
 TRUSTED = ['CPython int()/float()/repr()/str() answered by CPython', 'samples.Timestamp arithmetic']
 ASSUMPTIONS = ['timestamps are compared by the decimal number their rendering denotes (int 5, float 5.0 and Timestamp(5, 0) agree), '
                'nanosecond resolution: float timestamps whose repr has more than 9 fractional digits are outside the domain']
-TIME_BUDGET = {'quick': 100, 'thorough': 1200}
+TIME_BUDGET = {'quick': 150, 'thorough': 1500}
 ORACLE = dict(c03.ORACLE)
+try:
+    from . import c14om, c04b
+    ORACLE.update(c14om.ORACLE)
+    TRUSTED = TRUSTED + [t for t in c14om.TRUSTED if t not in TRUSTED]
+except ImportError:
+    c14om = c04b = None
 
 
 def ts_key(t):
@@ -93,8 +99,7 @@ def impl(case):
 
 def _impl(case):
     if case.get('dir') == 2:
-        from . import c04b
-        return c04b.impl(case)
+        return dict(dir2=c04b.impl(case))
     from prometheus_client.openmetrics.exposition import generate_latest
     from prometheus_client.openmetrics.parser import text_string_to_metric_families
     rng = random.Random(case['rseed'])
@@ -112,25 +117,24 @@ def _impl(case):
         parsed = ['err', 'ValueError', str(e)[:200]]
     except Exception as e:
         parsed = ['err', 'Other:' + type(e).__name__]
-    return dict(text=text, parsed=c03.jsonable(parsed), expected=c03.jsonable(canon_fams(collected)),
-                fams=jsonable_fams(reggen.families_in(collected)))
+    obs = dict(text=text, parsed=c03.jsonable(parsed), expected=c03.jsonable(canon_fams(collected)),
+               fams=jsonable_fams(reggen.families_in(collected)))
+    if c14om is not None:
+        obs['om_obs'] = c03.jsonable(c14om.obs_impl(text))      # the parser model is compared on the same bytes
+    return obs
 
 
 def model(m, case):
     if case.get('dir') == 2:
-        from . import c04b
-        return c04b.model(m, case)
+        return dict(dir2=c04b.model(m, case))
     obs = impl(case)
     if 'skip' in obs or 'expose_error' in obs:
         return obs
     r = d_res(d_str, m.call('om_render', True, unjson_fams(obs['fams'])))
     out = dict(obs)
     out['text'] = r[1] if r[0] == 'ok' else None
-    try:
-        from . import c14om
-        out['parsed'] = c14om.model_parse(m, out['text'])
-    except ImportError:
-        pass
+    if c14om is not None and out['text'] is not None:
+        out['om_obs'] = c03.jsonable(c14om.obs_model(m, out['text']))
     return out
 
 
@@ -138,17 +142,15 @@ def same(a, b):
     if 'skip' in a:
         return True
     if 'dir2' in a:
-        from . import c04b
-        return c04b.same(a, b) if hasattr(c04b, 'same') else a == b
+        return c04b.same(a['dir2'], b['dir2']) if hasattr(c04b, 'same') else a['dir2'] == b['dir2']
     if 'expose_error' in a:
         return False
-    return a['text'] == b['text'] and a['parsed'][:2] == b['parsed'][:2]
+    return a['text'] == b['text'] and a.get('om_obs') == b.get('om_obs')
 
 
 def direct(case, obs):
     if case.get('dir') == 2:
-        from . import c04b
-        return c04b.direct(case, obs)
+        return c04b.direct(case, obs['dir2'])
     if 'skip' in obs:
         return None
     if 'expose_error' in obs:
@@ -165,24 +167,34 @@ def direct(case, obs):
 
 
 def cases(ctx):
+    import itertools
     rng = ctx.rng
-    for _ in range(ctx.n(5000, 120000)):
-        yield dict(dir=1, rseed=rng.getrandbits(48), utf8=rng.random() < 0.7)
-    try:
-        from . import c04b
-    except ImportError:
-        return
-    for c in c04b.cases(ctx):
-        c['dir'] = 2
-        yield c
+
+    def d1():
+        for _ in range(ctx.n(5000, 120000)):
+            yield dict(dir=1, rseed=rng.getrandbits(48), utf8=rng.random() < 0.7)
+
+    def d2():
+        for c in c04b.cases(ctx):
+            c['dir'] = 2
+            yield c
+    streams = [d1()] + ([d2()] if c04b is not None else [])
+    for group in itertools.zip_longest(*streams):
+        for c in group:
+            if c is not None:
+                yield c
 
 
 def nontrivial(case, obs):
+    if 'dir2' in obs:
+        return c04b.nontrivial(case, obs['dir2']) if hasattr(c04b, 'nontrivial') else True
     t = obs.get('text') or ''
     return 'skip' not in obs and ('\\' in t or '{"' in t or ' # {' in t or '# UNIT' in t)
 
 
 def classify(case, obs):
+    if 'dir2' in obs:
+        return ['dir2'] + (['dir2:' + k for k in c04b.classify(case, obs['dir2'])] if hasattr(c04b, 'classify') else [])
     if 'skip' in obs:
         return ['skip']
     k = ['dir%d' % case.get('dir', 1)]
